@@ -578,6 +578,9 @@ def minimize_lbfgsb(
             # the linesearch step
             f0, grad = sf.fun_and_grad(x)
 
+            # Whether update_fun_def has rewritten the history of gradients
+            is_rewritten = False
+
             if update_fun_def is None:
                 if is_f0_target_reached(f0 / sf.scaling_factor, _ftarget, istate):
                     break  # the while loop
@@ -587,7 +590,23 @@ def minimize_lbfgsb(
             # perform a potential update of the objective function definition and
             # upgrade the gradient and the past sequence of gradients accordingly
             else:
+                grad_in, G_in = grad, G
                 f0, f0_old, grad, G = update_fun_def(x, f0, f0_old, grad, X, G)
+                # nothing has changed if the inputs are returned as they are
+                is_rewritten = grad is not grad_in or G is not G_in
+
+                if is_rewritten:
+                    # The new point is always kept. The older ones are kept as long as
+                    # the updated G satisfy the strong wolfe condition, starting from
+                    # the new point, within the limit of maxcor corrections.
+                    X.append(x.copy())
+                    G.append(grad)
+                    X, G = make_X_and_G_respect_strong_wolfe(
+                        X, G, eps_SY, logger=logger
+                    )
+                    while len(X) > maxcor + 1:
+                        X.popleft()
+                        G.popleft()
 
                 # Same stop criteria, in the same order as without update_fun_def
                 # 1) minimum objective function value
@@ -598,20 +617,35 @@ def minimize_lbfgsb(
                 elif is_f0_min_change_reached(f0, f0_old, ftol, istate):
                     break  # the while loop
 
-                # We must check if the updated G satisfy the strong wolfe condition
-                X, G = make_X_and_G_respect_strong_wolfe(X, G, eps_SY, logger=logger)
-
-            mats = update_lbfgs_matrices(
-                x.copy(),  # copy otherwise x might be changed in X when updated
-                grad,
-                X,
-                G,
-                maxcor,
-                mats,
-                is_force_update=False,
-                eps=eps_SY,
-                is_check_factorization=is_check_factorization,
-            )
+            if is_rewritten and len(X) == 1:
+                # no correction left with the new definition: reboot BFGS-Hessian
+                mats = LBFGSB_MATRICES(n)
+            elif is_rewritten:
+                # the matrices must be rebuilt from the rewritten history (the new point
+                # is re-inserted by the update, its curvature has just been checked)
+                mats = update_lbfgs_matrices(
+                    X.pop(),
+                    G.pop(),
+                    X,
+                    G,
+                    maxcor,
+                    mats,
+                    is_force_update=True,
+                    eps=eps_SY,
+                    is_check_factorization=is_check_factorization,
+                )
+            else:
+                mats = update_lbfgs_matrices(
+                    x.copy(),  # copy otherwise x might be changed in X when updated
+                    grad,
+                    X,
+                    G,
+                    maxcor,
+                    mats,
+                    is_force_update=False,
+                    eps=eps_SY,
+                    is_check_factorization=is_check_factorization,
+                )
 
             # callback is a user defined mechanism to stop optimization
             # if callback returns True, then it stops.
